@@ -89,6 +89,14 @@ def cut(v, kind):
     raise ValueError(kind)
 
 
+def _all_unknown(d):
+    return all(x is None for x in d)
+
+
+def _weaker_like_logical(cd, logical_divs):
+    return _all_unknown(cd) and _all_unknown(logical_divs)
+
+
 def run_case(case):
     prog = case["prog"] if "prog" in case else progcase.gen_prog(("C17",) + tuple(case["gen"]), profile=case.get("profile", "default"), exclude_tags=("cut",))
     counters, sets = {}, {"cut_node_kinds": []}
@@ -115,6 +123,7 @@ def run_case(case):
                 o = q.optimize()
                 ref = concat_parts(exec_ref(o.expr))
                 ref_meta, ref_divs = o._meta, _divs(o.expr)
+                logical_divs = _divs(q.expr)
         except Exception:
             return {"status": "undecided", "counters": {"uncut_raises": 1}}
         todo = case.get("cuts") or [(j, k) for j in ancestors(prog, out) for k in KINDS]
@@ -192,9 +201,14 @@ def run_case(case):
                 # the columns the rest of the plan needs, which a cut changes: only the covered range is comparable
                 cd = _divs(oc.expr)
                 bump("divisions_fused_read_range_only")
-                if (cd[0] is None) != (ref_divs[0] is None) and kind != "legacy" or (cd[0] is not None and ref_divs[0] is not None and (cd[0], cd[-1]) != (ref_divs[0], ref_divs[-1])):
+                if ((cd[0] is None) != (ref_divs[0] is None) and kind != "legacy" and not _weaker_like_logical(cd, logical_divs)) or (cd[0] is not None and ref_divs[0] is not None and (cd[0], cd[-1]) != (ref_divs[0], ref_divs[-1])):
                     viol = {"oracle": "cut_divisions", "symptom": "divisions-range", "got": repr(cd)[:200], "exp": repr(ref_divs)[:200], "cut": [j, kind], "node": nk}
                     break
+            elif _all_unknown(_divs(oc.expr)) and (_all_unknown(ref_divs) or _weaker_like_logical(_divs(oc.expr), logical_divs)):
+                # unknown on both sides (the number of partitions is layout, which persist()'s own tune step may change), or the
+                # cut reports what the query as written (its logical plan) reports: the uncut optimized plan only knows more
+                # because a push-down removed the operation that loses the divisions, and the cut blocks that push-down
+                bump("divisions_unknown_both_or_like_logical")
             elif _divs(oc.expr) != ref_divs and kind != "legacy" or (kind == "legacy" and _divs(oc.expr) != ref_divs and oc.known_divisions and ref_divs[0] is not None):
                 viol = {"oracle": "cut_divisions", "symptom": "divisions", "got": repr(_divs(oc.expr))[:200], "exp": repr(ref_divs)[:200], "cut": [j, kind], "node": nk}
                 break
